@@ -100,7 +100,36 @@ func mutateTokens(t *rapid.T, s string) string {
 		if strings.HasPrefix(lines[li], "\t") {
 			indent = "\t"
 		}
-		switch rapid.IntRange(0, 7).Draw(t, "tokop") {
+		switch rapid.IntRange(0, 9).Draw(t, "tokop") {
+		case 8, 9: // a new line inside a block that is nothing but the block's own verb (or another keyword)
+			var inBlock []int
+			verbAt := map[int]string{}
+			cur := ""
+			for j, l := range lines {
+				ff := strings.Fields(l)
+				switch {
+				case len(ff) >= 2 && ff[len(ff)-1] == "(" || len(ff) >= 2 && ff[1] == "(":
+					cur = ff[0]
+				case len(ff) >= 1 && ff[0] == ")":
+					if cur != "" {
+						inBlock, verbAt[j] = append(inBlock, j), cur // (right before the closing parenthesis)
+					}
+					cur = ""
+				case cur != "":
+					inBlock, verbAt[j] = append(inBlock, j), cur
+				}
+			}
+			if len(inBlock) == 0 {
+				f = []string{keywords[gen.Uniform(t, len(keywords), "kw")]}
+				break
+			}
+			at := inBlock[gen.Uniform(t, len(inBlock), "ownverbat")]
+			word := verbAt[at]
+			if gen.Chance(t, 25, "otherkw") {
+				word = keywords[gen.Uniform(t, len(keywords), "kw")]
+			}
+			lines = append(lines[:at:at], append([]string{"\t" + word}, lines[at:]...)...)
+			continue
 		case 6: // a directive keyword where an argument is expected
 			f[gen.Uniform(t, len(f), "tok")] = keywords[gen.Uniform(t, len(keywords), "kw")]
 		case 7: // the line is nothing but a directive keyword (inside a block: the block's own verb, or another)
